@@ -27,6 +27,12 @@ fn all_queries(t: &[u8], id: &[u8; 20], target: &[u8; 20]) -> Vec<(&'static str,
         ("announce_signed_peer", q_announce_signed_peer(t, id, target, &[7; 32], &[8; 64], 1_790_000_000_000_000, b"tokn")),
         ("put-immutable", q_put_immutable(t, id, b"tokn", &immutable_target(b"abc"), b"abc")),
         ("put-mutable", q_put_mutable(t, id, b"tokn", target, b"abc", &[7; 32], &[8; 64], 1, None, None)),
+        // requests a server would answer with an error rather than a response (size limits, malformed fields)
+        ("put-immutable-oversize", q_put_immutable(t, id, b"tokn", &immutable_target(&[b'x'; 1001]), &[b'x'; 1001])),
+        ("put-mutable-oversize", q_put_mutable(t, id, b"tokn", target, &[b'y'; 1200], &[7; 32], &[8; 64], 1, None, None)),
+        ("put-mutable-long-salt", q_put_mutable(t, id, b"tokn", target, b"abc", &[7; 32], &[8; 64], 1, Some(&[b'z'; 65]), None)),
+        ("put-mutable-cas", q_put_mutable(t, id, b"tokn", target, b"abc", &[7; 32], &[8; 64], 1, Some(b"s"), Some(0))),
+        ("put-immutable-hash-mismatch", q_put_immutable(t, id, b"tokn", target, b"abc")),
     ]
 }
 
